@@ -4,7 +4,7 @@ From Verif Require Import Base.Util Reader.Model.
 Import ListNotations.
 Local Open Scope string_scope.
 
-Definition is_data (k : mkind) : bool := match k with KInsert | KDelete | KDropColl | KDropPart => true | _ => false end.
+Definition is_data (k : mkind) : bool := match k with KInsert | KDelete | KDropColl | KDropPart | KImport => true | _ => false end.
 
 (* the collections started by the script *)
 Definition colls (ls : list label) : list collinfo := flat_map (fun l => match l with StartColl c => [c] | _ => [] end) ls.
